@@ -25,7 +25,7 @@ def append_demo(wt, demo):
     i = s.rindex('}')
     open(p, 'w').write(s[:i] + demo + '\n}\n')
     m2 = re.match(r'//\s*run:\s*(.+)', lines[1])
-    return target, m2.group(1).strip()
+    return target, m2.group(1).strip().split()[0]     # the test-name filter only (a remark may follow it)
 
 
 def main():
